@@ -43,7 +43,7 @@ CHECKS = {
          "Trusted: errors.Is against the package's exported sentinels evaluated in the child; hook and interposer for byte counting.",
          "DESIGN.md section 5, C09"),
  "C10": ("exploration", "runtime monitoring: metamorphic oracle — pairs of spellings whose NFKD forms are equal according to CPython must get the same CheckMnemonic verdict",
-         "Every list word of every language at every word count, in NFC/NFD/NFKC/NFKD/single-code-point pre-images (full-width, ligatures, precomposed, Hangul syllables, compatibility ideographs)/mixed, with U+0020, U+3000 and other space-like separators; near-miss sentences; random Unicode strings with their normal forms; in-process histories (a spelling under one language, then another, each followed by its NFKD spelling). Coverage of all non-trivial (language, word, form) triples is required.",
+         "Every list word of every language at every word count, in NFC/NFD/NFKC/NFKD/single-code-point pre-images (full-width, ligatures, precomposed, Hangul syllables, compatibility ideographs)/mixed, with U+0020, U+3000 and other space-like separators; near-miss sentences (wrong checksum, unknown word, a separator too many in every position); random Unicode strings with their normal forms; in-process histories (a spelling under one language, then another, each followed by its NFKD spelling). Coverage of all non-trivial (language, word, form) triples is required.",
          "Precondition decided by CPython (pairs failing it are skipped and counted). Domain: assigned code points, non-starter runs <= 25.",
          "DESIGN.md section 5, C10"),
  "C11": ("exploration", "runtime monitoring: metamorphic oracle — (mnemonic, passphrase) pairs with component-wise equal NFKD forms (CPython) must give identical seeds; baseline also compared with the reference seed",
@@ -71,7 +71,7 @@ CHECKS = {
          "Expected names are the declared identifiers of the constants.",
          "DESIGN.md section 5, C16"),
  "C17": ("exploration", "runtime monitoring of the generator tool: built with the verif fetch-redirect hook, run against a loopback HTTP server operated by the parent; outputs parsed, type-checked, compared with the inputs; scratch rebuild of the repository observed through the API",
-         "Canonical lists, a run with every assigned combining mark at either end of a word and every assigned letter, and seeded inputs (0..5000 words, scripts of the BIP39 lists and others, leading/doubled/non-canonical marks, Go keywords, long words, blank lines in every position, with/without trailing newline) for all ten targets per run; request log checked; runs with ten 2048-word inputs are rebuilt and each language must emit the words served under its file name.",
+         "Canonical lists, a run with every assigned combining mark at either end of a word and every assigned letter, and seeded inputs (0..5000 words, scripts of the BIP39 lists and others, leading/doubled/non-canonical marks, Go keywords, long words, blank lines in every position, with/without trailing newline) for all ten targets per run; request log checked; runs with ten 2048-word inputs are rebuilt and each language must emit the words served under its file name (with a harness-written control package); fault runs cut the first download of some files inside the body: a tool that reports success must still have written faithful files.",
          "Characters outside the property's domain (quotes, <, &, backslash, CR) are not generated. Loopback HTTP is available in the sandbox.",
          "DESIGN.md section 5, C17"),
 }
